@@ -380,6 +380,32 @@ func BuildBase(name string, cfg Config, seed uint32) (*Base, error) {
 		bb.key("n5", 0x00BB0005) // new key that lands in bucket 5 after the split (bucket 1 before)
 		bb.key("n3", 0x00CC0003) // new key for bucket 3
 		return bb.finish([]string{"mv", "st", "b0", "b4", "n1", "n5", "n3"}, []string{"g010", "g050", "g100"})
+	case "LG":
+		// a sealed segment with a LEGACY file name (no sequence id: "00000.psg", still accepted when opening) and
+		// a current segment with a modern name
+		bb.key("a", 0x11110000)
+		bb.key("b", 0x22220001)
+		bb.key("c", 0x11110000)
+		bb.key("d", 0x33330002)
+		bb.key("e", 0x44440003)
+		bb.key("n", 0x55550004)
+		bb.put("a")
+		bb.put("b")
+		bb.put("d")
+		bb.put("e")
+		b, err := bb.finish([]string{"a", "b", "c", "d", "e", "n"}, nil)
+		if err != nil {
+			return nil, err
+		}
+		for _, ext := range []string{"", ".pmt"} {
+			if !b.Image.Exists(DBPath + "/00000-1.psg" + ext) {
+				return nil, fmt.Errorf("base LG: expected file 00000-1.psg%s", ext)
+			}
+			if err := b.Image.Rename(DBPath+"/00000-1.psg"+ext, DBPath+"/00000.psg"+ext); err != nil {
+				return nil, err
+			}
+		}
+		return b, nil
 	case "SM":
 		// ROLLM (= ROLL with a minimum segment size for compaction of header+60): a full segment of three
 		// puts (578 bytes), a sealed SMALL segment [put a, del d, del e] (570 bytes, below the minimum) and a
